@@ -33,8 +33,21 @@ def evaluate(prop: str, root=None) -> Ctx:
     # a violation may pre-empt downstream obligations of the same construct, so the
     # floors are relaxed by the number of findings (never below 1)
     slack = len(ctx.findings)
-    for rule, minimum in getattr(mod, "FLOORS", {}).items():
-        ctx.floor(rule, max(1, minimum - slack))
+    if not ctx.undecided:
+        try:
+            for rule, minimum in getattr(mod, "FLOORS", {}).items():
+                ctx.floor(rule, max(1, minimum - slack))
+        except AnalysisError as exc:
+            ctx.undecided.append(str(exc))
+    if ctx.undecided:
+        from .report import load_known
+
+        known, _ = load_known()
+        if not any(f.key not in known for f in ctx.findings):
+            raise AnalysisError(" || ".join(ctx.undecided))
+        # positively identified violations stand even though another rule could not decide
+        for u in ctx.undecided:
+            ctx.note(f"undecided rule: {u}")
     return ctx
 
 
